@@ -68,7 +68,7 @@ func genSignCase(r *rand.Rand, forceMatrix, forcePlugins bool) (*signCase, error
 			sc.Penv[k] = "pipeline-level value"
 		}
 	}
-	sc.Repo = gen.Pick(r, []string{"git@github.com:org/repo.git", "https://github.com/org/repo", "", "file:///tmp/repo", "ssh://git@host/x.git#frag"})
+	sc.Repo = gen.Pick(r, []string{"git@github.com:org/repo.git", "https://github.com/org/repo", "", "file:///tmp/repo", "ssh://git@host/x.git#frag", "https://user:pw@host.example/org/toolkit.git", "acme/digit", "ssh://git@host:2222/org/audit"})
 	return sc, nil
 }
 
@@ -415,6 +415,34 @@ func c01Mutants(r *rand.Rand, sc *signCase, sig *pipeline.Signature, kp, other, 
 	m = base("repo:rune")
 	m.Repo = mutateRune(r, m.Repo)
 	add(m)
+	// the URL is signed as written: no suffix, slash, case or credentials is "the same repository"
+	for _, suf := range []string{".git", "t", "g", ".", "i", "/", " "} {
+		m = base("repo:append")
+		m.Repo += suf
+		add(m)
+	}
+	origRepo := base("repo:orig").Repo
+	if origRepo != "" {
+		m = base("repo:drop-last-rune")
+		rs := []rune(m.Repo)
+		m.Repo = string(rs[:len(rs)-1])
+		add(m)
+		m = base("repo:upper")
+		if up := strings.ToUpper(m.Repo); up != m.Repo {
+			m.Repo = up
+			add(m)
+		}
+	}
+	if i := strings.Index(origRepo, "://"); i >= 0 {
+		rest := origRepo[i+3:]
+		m = base("repo:userinfo")
+		if at := strings.Index(rest, "@"); at >= 0 {
+			m.Repo = m.Repo[:i+3] + "mallory" + rest[at:]
+		} else {
+			m.Repo = m.Repo[:i+3] + "mallory@" + rest
+		}
+		add(m)
+	}
 
 	// ---- verify-time pipeline env
 	var signedEnv []string
